@@ -78,6 +78,7 @@ Proof.
   split; [apply all_in_sound; assumption|].
   split; [apply all_in_sound; assumption|].
   split; [use_forallb; apply nonempty_sound|].
+  split; [|use_forallb; intros l; apply nodup_strs_sound].
   use_forallb. intros rt Hrt Hex. rewrite Hex in Hrt. cbn in Hrt.
   destruct (rt_values rt); [reflexivity|discriminate].
 Qed.
@@ -95,7 +96,8 @@ Proof.
   split; [use_forallb; apply ext_pair_allowedb_sound|].
   split; [use_forallb; intros st; apply memb_In|].
   split; [apply all_in_sound; assumption|].
-  use_forallb; apply nonempty_sound.
+  split; [use_forallb; apply nonempty_sound|].
+  use_forallb; intros l; apply nodup_strs_sound.
 Qed.
 
 (* ---- whole world ---- *)
